@@ -347,9 +347,11 @@ def main(argv):
 
   # ---- bounded exhaustive stand-ins: only when a unit they stand in for is undecided
   # (enum_thorough: complete enumerations of a finite decision table, run in the thorough tier whatever the units say)
-  for en in list(spec.get("enum_fallback", [])) + (list(spec.get("enum_thorough", [])) if tier == "thorough" else []):
+  # (enum_quick: complete enumerations of a small finite decision table that no Verus unit can read -- string-keyed tables --, run in every tier)
+  always = list(spec.get("enum_quick", [])) + (list(spec.get("enum_thorough", [])) if tier == "thorough" else [])
+  for en in list(spec.get("enum_fallback", [])) + always:
     es = ENUM_TESTS[en]
-    if en not in spec.get("enum_thorough", []) and not any(u.get("unit") == es["unit"] for u in undecided):
+    if en not in always and not any(u.get("unit") == es["unit"] for u in undecided):
       continue
     rr = run_enum(en)
     entry = {"name": "enum.%s" % en, "bound": es["bound"], "text": es["what"], "ms": None,
